@@ -337,6 +337,56 @@ def r8_one_scratch_view(ctx: Context) -> None:
     ctx.floor("C15.R8", "phases given a cluster view", n, 3)
 
 
+def r9_never_preempts(ctx: Context) -> None:
+    ctx.rule("C15.R9", "ClockworkScheduler never asks for running work back: its constructor leaves BaseScheduler's `preemptive` at False (or passes the "
+                       "constant), so schedule() is offered waiting requests only - a request already executing in a batch is not queued a second time")
+    cls = ctx.repo.mod(CW).cls("ClockworkScheduler")
+    init = method(cls, "__init__")
+    ctx.analysed_function(f"{CW}::ClockworkScheduler.__init__")
+    sup = [c for c in calls_in(init, "__init__") if "super" in norm(c.func)]
+    ctx.floor("C15.R9", "BaseScheduler.__init__ call in ClockworkScheduler.__init__", len(sup), 1)
+    for c in sup:
+        kw = next((k.value for k in c.keywords if k.arg == "preemptive"), c.args[0] if c.args else None)
+        splat = any(k.arg is None for k in c.keywords)
+        ok = (kw is None and not splat) or (isinstance(kw, ast.Constant) and kw.value is False)
+        ctx.check(ok, "C15.R9", "ClockworkScheduler.__init__|preemptive stays False", loc(c), "not forwarded",
+                  f"`preemptive={norm(kw) if kw is not None else '**...'}` reaches BaseScheduler: with it set, get_schedulable_tasks hands RUNNING tasks back to "
+                  "schedule(), which queues them again and places them in a second batch while the first still executes")
+    sets = [a for a in ast.walk(cls) if isinstance(a, (ast.Assign, ast.AugAssign, ast.AnnAssign))
+            and any(is_self_attr(t, "_preemptive") for t in (a.targets if isinstance(a, ast.Assign) else [a.target]))]
+    ctx.check(not sets, "C15.R9", "ClockworkScheduler|does not set _preemptive itself", loc(sets[0]) if sets else loc(cls), "never written", "the flag is written directly")
+
+
+def r10_request_identity(ctx: Context) -> None:
+    ctx.rule("C15.R10", "Model.Request.__eq__ identifies a request by its task's id (or the task object): names repeat across invocations of a job, and "
+                        "remove_task / `in request_queue` rely on this equality")
+    cls = ctx.repo.mod(CW).cls("Model")
+    req = next((c for c in cls.body if isinstance(c, ast.ClassDef) and c.name == "Request"), None)
+    if req is None:
+        raise AnalysisError("Model.Request not found")
+    eq = methods(req).get("__eq__")
+    if eq is None:
+        raise AnalysisError("Model.Request.__eq__ not found")
+    ctx.analysed_function(f"{CW}::Model.Request.__eq__")
+    other = eq.args.args[1].arg
+    rets = [r for r in ast.walk(eq) if isinstance(r, ast.Return) and r.value is not None]
+    ctx.floor("C15.R10", "return in Model.Request.__eq__", len(rets), 1)
+    for r in rets:
+        v = r.value
+        ok = False
+        if isinstance(v, ast.Compare) and len(v.ops) == 1 and isinstance(v.ops[0], (ast.Eq, ast.Is)):
+            sides = sorted([norm(v.left), norm(v.comparators[0])])
+            for task_attr in ("_task", "task"):
+                for suffix in (".id", ""):
+                    if sides == sorted([f"self.{task_attr}{suffix}", f"{other}.{task_attr}{suffix}"]):
+                        ok = True
+        if isinstance(v, ast.Constant) and v.value is False or norm(v) == "NotImplemented":
+            ok = True  # refusal for a foreign type
+        ctx.check(ok, "C15.R10", "Model.Request.__eq__|same task id", loc(r), norm(v)[:60],
+                  f"requests are compared by `{norm(v)[:70]}`: two invocations that share that value are one request to remove_task / `in`, so the wrong request "
+                  "leaves the queue and a task is batched twice or never")
+
+
 def run(ctx: Context) -> None:
     ctx.isolate(r1_one_model_per_queue)
     ctx.isolate(r2_full_batches)
@@ -345,6 +395,8 @@ def run(ctx: Context) -> None:
     ctx.isolate(r5_on_time)
     ctx.isolate(r6_admission)
     ctx.isolate(r8_one_scratch_view)
+    ctx.isolate(r9_never_preempts)
+    ctx.isolate(r10_request_identity)
     from . import c04
     ctx.isolate(c04.r4_r5_copies, rule4="C15.R4c", rule5="C15.R4d")
     from . import c16
